@@ -522,12 +522,16 @@ class World:
         return ecb, ccb
 
     # ------------------------------------------------------------------ user code: iterables
-    def counting_gen(self, rec, items):
-        """Generator over items; rec['pulled'] counts __next__ calls that produced an element."""
+    def counting_gen(self, rec, items, iterfail=-1):
+        """Generator over items; rec['pulled'] counts __next__ calls that produced an element.
+        iterfail >= 0: the iterable itself raises when asked for element number iterfail."""
         w = self
 
         def gen():
-            for it in items:
+            for n_, it in enumerate(items):
+                if n_ == iterfail:
+                    rec["iter_raised"] = True
+                    raise RuntimeError("argument source broke")
                 rec["pulled"] += 1
                 if rec.get("cancel_seen"):
                     rec["advanced_after_cancel"] = True
